@@ -95,8 +95,6 @@ def binding_a(binp, v, scd, tag, raw, id_base, max_hang_cases, rnd):
     path = os.path.join(scd, "a-%s-cases.ndjson" % tag)
     lib.write_ndjson(path, cases)
     rep, res = execute(binp, path, os.path.join(scd, "a-%s-trace.ndjson" % tag))
-    if rep["extra"].get("skipped"):
-        raise lib.Inconclusive("binding A (%s): %d cases skipped after too many hangs/crashes: %s" % (tag, rep["extra"]["skipped"], rep["extra"]))
     bad, drift = [], 0
     for c in res:
         g, e, m = canon(c["got"]), canon(c["exp"]), canon(c["mach"])
@@ -119,6 +117,8 @@ def binding_a(binp, v, scd, tag, raw, id_base, max_hang_cases, rnd):
                   "machine_tags": c["mtags"], "raw": c.get("raw"), "case_file": None, "binding": "A/" + tag, "seed": lib.seed()}
         if v.add(signature(c, coded, c["mtags"], c["got"], c["exp"]), detail) == "violation":
             detail["case_file"] = save_case(c, "a-%s" % tag)
+    if rep["extra"].get("skipped"):      # after the executed cases were judged: a violation found there still counts
+        raise lib.Inconclusive("binding A (%s): %d cases skipped after too many hangs/crashes: %s" % (tag, rep["extra"]["skipped"], rep["extra"]))
     nt = sum(1 for c in res if c["nt"])
     samples = [{"sql": c["sql"], "args": c["prog"]["args"], "got": c["got"]} for c in res if c["nt"] and canon(c["got"]) == canon(c["exp"])][:2]
     kinds = set()
@@ -157,8 +157,6 @@ def judge(trace_path, chunk):
 def binding_b(binp, v, scd, tag, cases_path, chunk):
     trace = os.path.join(scd, "b-%s-trace.ndjson" % tag)
     rep, res = execute(binp, cases_path, trace)
-    if rep["extra"].get("skipped"):
-        raise lib.Inconclusive("binding B (%s): %d cases skipped after too many hangs/crashes: %s" % (tag, rep["extra"]["skipped"], rep["extra"]))
     js, states = judge(trace, chunk)
     bad = [j for j in js.values() if j["what"] == "mismatch"]
     again = {}
@@ -175,6 +173,8 @@ def binding_b(binp, v, scd, tag, cases_path, chunk):
                   "binding": "B/" + tag, "witness_of": ev.get("finding"), "seed": lib.seed()}
         if v.add(signature(ev, j["coded"], j["mtags"], ev["got"], j["exp"]), detail) == "violation":
             detail["case_file"] = save_case(ev, "b-%s" % tag)
+    if rep["extra"].get("skipped"):
+        raise lib.Inconclusive("binding B (%s): %d cases skipped after too many hangs/crashes: %s" % (tag, rep["extra"]["skipped"], rep["extra"]))
     ok = [j for j in js.values() if j["what"] == "ok"]
     samples = [{"sql": j["ev"]["sql"], "args": j["ev"]["prog"]["args"], "got": j["ev"]["got"]} for j in ok if j.get("nt")][:2]
     kinds = set()
@@ -202,8 +202,8 @@ def check(tier):
     binp = lib.build("c24")
     v = lib.Verdict(PID)
     quick = tier == "quick"
-    nsim = 400 if quick else 6000
-    nb = 300 if quick else 6000
+    nsim = 600 if quick else 6000
+    nb = 450 if quick else 6000
     exh_cfg = "MC_Proc_exhq.cfg" if quick else "MC_Proc_exh.cfg"
     tw = max(2, min(6, lib.NCPU // 2))
     with lib.Scratch() as scd:
